@@ -132,6 +132,13 @@ pub enum Class {
     ProbePktChain,
     /// an indirect packet load inside a counter loop, the index register growing by a step each time
     ProbePktLoop,
+    /// Two programs that are views of ONE buffer: ViewShort is the first ten instructions of
+    /// ViewLong, same start address, other length. Both are valid (ViewShort ends in a jump); they
+    /// differ for packets whose first byte is 5 (ViewLong answers 99, ViewShort runs off its end, which
+    /// the interpreter reports by panicking). An unreachable call to a never-registered helper keeps
+    /// both compilers away. Raw kind only.
+    ViewLong,
+    ViewShort,
 }
 
 impl Class {
@@ -151,6 +158,8 @@ impl Class {
             Class::DeepCall => "DeepCall",
             Class::ProbePktChain => "ProbePktChain",
             Class::ProbePktLoop => "ProbePktLoop",
+            Class::ViewLong => "ViewLong",
+            Class::ViewShort => "ViewShort",
             Class::ProbeR1 => "ProbeR1",
             Class::ProbeSlotData => "ProbeSlotData",
             Class::ProbeSlotLen => "ProbeSlotLen",
@@ -207,6 +216,8 @@ impl Class {
             Class::DeepCall,
             Class::ProbePktChain,
             Class::ProbePktLoop,
+            Class::ViewLong,
+            Class::ViewShort,
         ] {
             if c.name() == s {
                 return Some(c);
@@ -247,6 +258,8 @@ pub struct Prog {
     pub min_mbuff: usize,
     /// access width of packet probes (1, 2, 4 or 8 bytes)
     pub w: u8,
+    /// this program is handed to the VM as the first `bytes.len()` bytes of that pool program's buffer
+    pub view_of: Option<usize>,
 }
 
 impl Prog {
@@ -267,6 +280,9 @@ impl Prog {
         o["p1"] = self.p1.into();
         o["local_call"] = self.local_call.into();
         o["w"] = self.w.into();
+        if let Some(v) = self.view_of {
+            o["view_of"] = v.into();
+        }
         o["asm"] = disasm(&self.bytes).into();
         o
     }
@@ -286,6 +302,7 @@ impl Prog {
             p1: v["p1"].as_i64()?,
             local_call: v["local_call"].as_bool()?,
             w: v["w"].as_u8().unwrap_or(1),
+            view_of: v["view_of"].as_usize(),
         })
     }
 }
@@ -360,7 +377,7 @@ impl B {
 }
 
 fn mk(bytes: Vec<u8>, tag: u8, class: Class) -> Prog {
-    Prog { bytes, tag, class, min_pkt: 0, offsets: None, p0: 0, p1: 0, local_call: false, min_mbuff: 0, w: 1 }
+    Prog { bytes, tag, class, min_pkt: 0, offsets: None, p0: 0, p1: 0, local_call: false, min_mbuff: 0, w: 1, view_of: None }
 }
 
 pub fn gen_const(rng: &mut Rng, tag: u8) -> Prog {
@@ -1161,6 +1178,32 @@ pub fn chain_imms(p: &Prog) -> Vec<usize> {
         let at = (3 + k) * 8 + 4;
         u32::from_le_bytes([p.bytes[at], p.bytes[at + 1], p.bytes[at + 2], p.bytes[at + 3]]) as usize
     }).collect()
+}
+
+pub const VIEW_SHORT_INSNS: usize = 10;
+
+pub fn gen_view_long(tag: u8) -> Prog {
+    let mut b = B::new(tag); // 0
+    b.i(LDXB, 2, 1, 0, 0); // 1: r2 = first packet byte
+    b.i(MOV64_IMM, 0, 0, 0, 1); // 2
+    b.i(0x15, 2, 0, 5, 5); // 3: jeq r2, 5, +5 -> 9
+    b.i(0x05, 0, 0, 1, 0); // 4: ja +1 -> 6
+    b.i(CALL, 0, 0, 0, KEY_NEVER as i32); // 5: never executed; keeps both compilers away
+    b.trailer(tag); // 6, 7, 8
+    b.i(0x55, 2, 0, -4, 5); // 9: jne r2, 5, -4 -> 6      (the last instruction of the short view)
+    assert_eq!(b.len(), VIEW_SHORT_INSNS);
+    b.i(MOV64_IMM, 0, 0, 0, 99); // 10
+    b.trailer(tag); // 11, 12, 13
+    let mut p = mk(b.v, tag, Class::ViewLong);
+    p.min_pkt = 1;
+    p
+}
+
+pub fn gen_view_short(long: &Prog, parent: usize) -> Prog {
+    let mut p = mk(long.bytes[..VIEW_SHORT_INSNS * 8].to_vec(), long.tag, Class::ViewShort);
+    p.min_pkt = 1;
+    p.view_of = Some(parent);
+    p
 }
 
 pub const RELOAD_XOR: u32 = 0x5a3c_a5c3;
